@@ -403,19 +403,19 @@ def gen_rich_tree(rng: Rng) -> dict:
 
 RICH_CORPUS_LAYOUTS = [
     # dotted definitions that collapse inside one module, used from the package file, a sibling module and another file
-    ([("api.json", ["models.Pet", "models.pet", "other.Owner"], "Api"), ("zoo.json", [], "Zoo")],
+    ([("shop.json", ["stock.Item", "stock.item", "people.Buyer"], "Shop"), ("cart.json", [], "Cart")],
      [(0, 2, False), (2, 1, False), (3, 2, False), (3, 1, False), (4, 2, False)]),
     # the same below a hyphenated directory, and from a deeper file
-    ([("my-api/api.json", ["models.Pet", "models.pet"], None), ("my-api/in/zoo.json", ["Unit"], None)],
+    ([("v-2/shop.json", ["stock.Item", "stock.item"], None), ("v-2/in/cart.json", ["Unit"], None)],
      [(0, 2, False), (3, 2, False), (4, 1, False), (4, 2, False)]),
     # a module that is a package (dotted definition) below a hyphenated directory, used by a sibling file
-    ([("common.json", [], "Common"), ("my-api/x.json", ["sub.Model"], "X"), ("my-api/y.json", [], "Y")],
+    ([("base.json", [], "Base"), ("v-2/p.json", ["part.Leaf"], "P"), ("v-2/q.json", [], "Q")],
      [(2, 0, False), (1, 2, False), (3, 1, False), (3, 2, False)]),
     # a module that is a package because of a directory, below a hyphenated directory
-    ([("my-api/x.json", [], None), ("my-api/x/z.json", [], None), ("my-api/w.json", [], None)],
+    ([("v-2/p.json", [], None), ("v-2/p/z.json", [], None), ("v-2/w.json", [], None)],
      [(1, 0, False), (2, 0, False), (2, 1, False)]),
     # undotted names that collapse in the file's own module
-    ([("a/x.json", ["Pet", "pet"], None), ("y.json", [], None)], [(0, 1, False), (0, 2, False), (3, 2, False), (3, 1, False)]),
+    ([("a/p.json", ["Item", "item"], None), ("q.json", [], None)], [(0, 1, False), (0, 2, False), (3, 2, False), (3, 1, False)]),
 ]
 
 
